@@ -2,16 +2,20 @@
     test of one of the four prepare() functions, once more, about the definitions of PV.ThermalGen: the functions of the
     hand-written model PV.Thermal rebuilt around what translator/gen_thermal.py reads off the C++ on every run
     (coq/gen/Gen_ThermalTruncate.v: the test `weights(s) > Tolerance` and the value of `retained` on return as a function of its
-    value on entry; Gen_RetainGF.v, Gen_RetainSusc.v: stripe test, retention test and the two advance tests of the merge walk;
-    Gen_RetainEA.v; Gen_RetainTPGF.v: range and test of the loop over LeftIndices[k]).
+    value on entry; Gen_RetainGF.v, Gen_RetainSusc.v: stripe test, retention test and the two advance tests of the merge walk, and
+    the WHOLE body of the loop executed symbolically as one step (part created and from which blocks, iterators advanced, loop
+    left early, bool locals carried along); Gen_RetainEA.v likewise; Gen_RetainTPGF.v: range and test of the loop over
+    LeftIndices[k], the rest of that function matched statement by statement).
     Statements only; proofs in PV.ThermalGenProofs (leaf agreements by closed computation, then transport of the theorems of
     PV.ThermalProofs / PV.TruncBoundsProofs).  This file stops compiling when `truncate` returns early on a discarded part,
-    a prepare() tests another block, combines the tests with &&, or the stripe loop covers fewer than four blocks.
+    a prepare() tests another block, combines the tests with &&, the stripe loop covers fewer than four blocks, or the stripe
+    loop of GreensFunction / Susceptibility / EnsembleAverage::prepare gains a break / continue / return, a flag, another
+    constructor argument or another advance rule.
 
     [..._src] : PV.ThermalGen. *)
 Require Import Reals List Arith Bool ZArith.
 From Coquelicot Require Import Complex.
-From PV Require Import Outcome Thermal ThermalSpec ThermalProofs ThermalExamples ThermalGen ThermalGenProofs.
+From PV Require Import Outcome Thermal ThermalSpec ThermalProofs ThermalExamples ThermalShapes ThermalGen ThermalGenProofs.
 From PV Require Import EDSpec GFIdentities TermIntegrals TruncBounds TruncBoundsProofs.
 From PVgen Require Import Gen_ThermalTruncate Gen_RetainGF Gen_RetainSusc Gen_RetainEA Gen_RetainTPGF.
 Import ListNotations.
@@ -40,6 +44,29 @@ Theorem source_prepare_functions_are_model :
   (forall (eps : R) (D : list Rdmpart), Rdm_truncate_src eps D = Rdm_truncate eps D).
 Proof. exact ThermalGenProofs.source_prepare_functions_are_model. Qed.
 Print Assumptions source_prepare_functions_are_model.
+
+(** one iteration of each stripe loop as the source has it -- every statement of the loop body, executed symbolically by the
+    translator -- is exactly the model's step (PV.ThermalGen.model_walk_step / model_ea_step): a part for a retained stripe, built
+    from the model's blocks in the constructor's order; the two advance tests; no exit from the loop; no state between iterations *)
+Theorem source_stripe_loops_are_model_step :
+  (gen_gf_flags_init = [] /\
+   forall (ret : nat -> bool) (flags : list bool) (Cleft Cright CXleft CXright : nat),
+     gen_gf_step ret flags Cleft Cright CXleft CXright = model_walk_step ret Cleft Cright CXleft CXright) /\
+  (gen_susc_flags_init = [] /\
+   forall (ret : nat -> bool) (flags : list bool) (Aleft Aright Bleft Bright : nat),
+     gen_susc_step ret flags Aleft Aright Bleft Bright = model_walk_step ret Aleft Aright Bleft Bright) /\
+  (gen_ea_flags_init = [] /\
+   forall (ret : nat -> bool) (flags : list bool) (Aleft Aright : nat),
+     gen_ea_step ret flags Aleft Aright = model_ea_step ret Aleft Aright).
+Proof. exact ThermalGenProofs.source_stripe_loops_are_model_step. Qed.
+Print Assumptions source_stripe_loops_are_model_step.
+
+(** in particular the scan over the stripes is never left before an iterator reaches the end *)
+Theorem source_stripe_loops_never_exit_early : forall (ret : nat -> bool) (flags : list bool) (a b c d : nat),
+  ws_exit (gen_gf_step ret flags a b c d) = false /\ ws_exit (gen_susc_step ret flags a b c d) = false /\
+  ws_exit (gen_ea_step ret flags a b) = false.
+Proof. exact ThermalGenProofs.source_stripe_loops_never_exit_early. Qed.
+Print Assumptions source_stripe_loops_never_exit_early.
 
 Theorem truncate_flag_src : forall (eps : R) (dp : Rdmpart),
   (dp_retained R (Rtruncate_src eps dp) = false <-> forall w, In w (dp_weights R dp) -> w <= eps) /\
